@@ -1283,6 +1283,8 @@ class sptensor:
             assert False, "Mask cannot be bigger than the data tensor"
 
         # Extract locations of nonzeros in W
+        if W.nnz == 0:
+            return np.zeros((0, 1))
         wsubs, _ = W.find()
 
         # Find which values in the mask match nonzeros in X
